@@ -3,6 +3,7 @@ use crate::core::{CaseOut, Run, Verdict};
 pub mod c01;
 pub mod c02;
 pub mod c03;
+pub mod c04;
 pub mod c05;
 pub mod c09;
 pub mod c06;
@@ -23,6 +24,7 @@ pub fn run(run: &Run) -> bool {
 		"C01" => c01::run(run),
 		"C02" => c02::run(run),
 		"C03" => c03::run(run),
+		"C04" => c04::run(run),
 		"C05" => c05::run(run),
 		"C09" => c09::run(run),
 		"C06" => c06::run(run),
@@ -48,6 +50,7 @@ fn replay_case(run: &Run, prop: &str, stage: &str, tape: Option<&[u16]>, v: &ser
 		"C01" => c01::replay(run, stage, tape, v),
 		"C02" => c02::replay(run, stage, tape, v),
 		"C03" => c03::replay(run, stage, tape, v),
+		"C04" => c04::replay(run, stage, tape, v),
 		"C05" => c05::replay(run, stage, tape, v),
 		"C09" => c09::replay(run, stage, tape, v),
 		"C06" => c06::replay(run, stage, tape, v),
